@@ -909,3 +909,76 @@ Proof.
            (step_flags _ _ _ c) evs2 (fst (run c evs)) (snd (run c evs))).
   unfold I_flags. auto.
 Qed.
+
+(* ================================================================================================ *)
+(* C17: a pending timeout call of a dropping kind fires when the clock reaches it *)
+Definition drop_kind (k : tkind) : Prop := k = TCloseHS \/ k = TServerDrop \/ k = TAutoPingTO.
+
+Lemma closed_rank3 : forall s, (3 <= rank (st s))%nat -> st s = CLOSED.
+Proof. intros s H. destruct (st s); simpl in H; try lia. reflexivity. Qed.
+Lemma has_call_in2 : forall k e, has_call k e = true -> exists id, In (k, id) (te_calls e).
+Proof.
+  intros k e H. unfold has_call in H. apply existsb_exists in H. destruct H as ([k0 id] & Hin & Hk).
+  simpl in Hk. apply tkind_eqb_eq in Hk. subst k0. exists id. exact Hin.
+Qed.
+
+Lemma on_timer_closes3 : forall c k s, drop_kind k -> st (fst (on_timer c k s)) = CLOSED.
+Proof.
+  intros c k s [Hk|[Hk|Hk]]; subst k; unfold on_timer, seqM, upd, ifS, in_state, ret, drop_connection, ifS, in_state, seqM, upd, say, ret;
+    simpl; destruct (wstate_eqb (st s) CLOSED) eqn:E; simpl; try rewrite E; simpl; try reflexivity;
+    destruct (st s); simpl in E; congruence.
+Qed.
+
+Lemma run_calls_closes3 : forall c calls k id s, In (k, id) calls -> drop_kind k ->
+  st (fst (run_calls c calls s)) = CLOSED.
+Proof.
+  intros c. induction calls as [|[k0 id0] r IH]; intros k id s Hin Hk; [destruct Hin|].
+  simpl run_calls. rewrite fst_seq. destruct Hin as [Hin|Hin].
+  - inversion Hin; subst. apply closed_rank3.
+    apply (presL_run_calls (I_rank 3) c (on_timer_rank 3 c) r [] (fst (on_timer c k s))).
+    unfold I_rank. rewrite (on_timer_closes3 c k s Hk). simpl. lia.
+  - eapply IH; eauto.
+Qed.
+
+Lemma fire_loop_rank3 : forall c t fuel, presL (I_rank 3) (fire_loop fuel c t).
+Proof.
+  intros. apply presL_fire_loop; [intro; apply on_timer_rank|]. unfold time_insensitive, I_rank. intros. simpl. assumption.
+Qed.
+
+Lemma fire_loop_pend : forall c t k B, drop_kind k -> forall fuel s, pendLe k B (timers s) ->
+  st (fst (fire_loop fuel c t s)) = CLOSED \/ pendLe k B (timers (fst (fire_loop fuel c t s))).
+Proof.
+  intros c t k B Hk fuel. induction fuel as [|f IH]; intros s Hp; simpl.
+  - right. exact Hp.
+  - unfold bindS. destruct (pick_due t (timers s)) as [[e rest]|] eqn:E; [|right; exact Hp].
+    rewrite !fst_seq. unfold upd. cbn [fst].
+    set (s1 := set_now (N.max (now s) (te_time e)) (set_timers rest s)).
+    destruct (pick_due_spec t _ e rest E) as (G1 & G2 & G3 & G4).
+    destruct Hp as (w & W1 & W2 & W3). destruct (G3 w W1) as [Hw|Hw].
+    + subst w. left. destruct (has_call_in2 k e W2) as [id Hid].
+      apply closed_rank3. apply (fire_loop_rank3 c t f [] (fst (run_calls c (te_calls e) s1))).
+      unfold I_rank. rewrite (run_calls_closes3 c (te_calls e) k id s1 Hid Hk). simpl. lia.
+    + apply IH. apply (presL_run_calls (I_pend k B) c (on_timer_pend k B c) (te_calls e) [] s1).
+      unfold I_pend, s1. simpl. exists w. auto.
+Qed.
+
+Lemma timeout_fires : forall c k B t s, drop_kind k -> pendLe k B (timers s) -> B <= t ->
+  st (fst (step c s (ETick t))) = CLOSED.
+Proof.
+  intros c k B t s Hk Hp Ht. unfold step, handle, tick. rewrite fst_seq. unfold bindS, upd. cbn [fst].
+  pose proof (fire_loop_complete c t (timers_weight (timers s)) s (Nat.le_refl _)) as Hc.
+  destruct (fire_loop_pend c t k B Hk (timers_weight (timers s)) s Hp) as [H|H].
+  - simpl. exact H.
+  - exfalso. destruct H as (w & W1 & W2 & W3). pose proof (pick_due_none t _ Hc w W1). lia.
+Qed.
+
+(* what _sendAutoPing and sendCloseFrame arm: the call is pending with a fire time no later than the nominal deadline *)
+Lemma arm_batched_pending : forall k d s, TI1 (timers s) (now s) ->
+  pendLe k (now s + d) (timers (fst (arm_batched k d s))).
+Proof.
+  intros k d s H. destruct (arm_batched_eff k d s) as (Et & _ & _). rewrite Et.
+  apply pendLe_bucket_new; [exact H|]. pose proof (quant_bounds (now s + d)). lia.
+Qed.
+
+Lemma ti1_run : forall c evs, TI1 (timers (fst (run c evs))) (now (fst (run c evs))).
+Proof. intros c evs. apply (presL_run I_ti1 c); [apply I_ti1_init | apply step_ti1]. Qed.
